@@ -24,6 +24,7 @@ def units(tier):
                                                            "goodwe.inverter.Inverter._decode"], tier)
 
 
+replay = replay_c15
 INFO = {
     "trusted_base": [TB["T1"], TB["T2"], TB["T3"]],
     "assumptions": ["the transport Inverter._read_from_socket is under (assumed) contract: a returned Modbus read answer has exactly 2*count payload bytes (C01), a refused block raises RequestRejectedException(ILLEGAL DATA ADDRESS) consistently over the scenario",
